@@ -18,7 +18,7 @@ PROP = 'C04'
 LEVEL = 'fault_enumeration'
 BATCH = 400
 TIERS = {
-    'quick': {'runs': 60000, 'budget': 45},
+    'quick': {'runs': 600000, 'budget': 30},
     'thorough': {'runs': 6_000_000, 'budget': 420},
 }
 RULE = ('seeded runs: (stream bytes, Content-Length, buffer size B, delivery schedule, in-memory/real temp file, '
